@@ -407,7 +407,7 @@ pub mod verif
                 while i < ntargets
                 {
                     let st = crate::blob::verif::blob_state(&result.blob, i);
-                    assert!(st.ticket == ticket_of_content(pre.out[i]) && st.timestamp == 1_000_000u64 * (pre.fresh as u64),
+                    assert!(st.ticket == ticket_of_content(pre.out[i]) && st.timestamp == 1_000_000u64 * ((if i == 0 { pre.fresh } else { pre.fresh2 }) as u64),
                         "[C18][C01] file-state table entry written back after a rebuild is not (hash, mtime) of the new file");
                     assert!(st.executable == f.ws[i].exec, "[C10] file-state table entry does not record the executable bit");
                     i += 1;
@@ -508,7 +508,7 @@ pub mod verif
                     assert!(result.file_state_vec.get_ticket(i) == ticket_of_content(pre.out[i]),
                         "[C01][C03][C18] hash handed to dependents after a rebuild is not the hash of the target's content");
                     let st = crate::blob::verif::blob_state(&result.blob, i);
-                    assert!(st.ticket == ticket_of_content(pre.out[i]) && st.timestamp == 1_000_000u64 * (pre.fresh as u64),
+                    assert!(st.ticket == ticket_of_content(pre.out[i]) && st.timestamp == 1_000_000u64 * ((if i == 0 { pre.fresh } else { pre.fresh2 }) as u64),
                         "[C18][C01] file-state table entry written back after a rebuild is not (hash, mtime) of the new file");
                     assert!(st.executable == f.ws[i].exec, "[C10] file-state table entry does not record the executable bit");
                     i += 1;
@@ -569,6 +569,7 @@ pub mod verif
     #[kani::stub(alloc::alloc::dealloc, crate::stubs::dealloc_noop)]
     #[kani::stub(<std::string::String as Clone>::clone, crate::stubs::string_clone_short)]
     #[kani::stub(crate::history::RuleHistory::insert, crate::history::verif_insert_model::insert_model)]
+    #[kani::stub(<crate::blob::FileStateVec as Clone>::clone, crate::blob::verif::fsv_clone_small)]
     fn exp_rebuild_insert_model_1t()
     {
         step_rebuild_phase_m(1);
